@@ -38,7 +38,7 @@ func init() {
 			}
 			return ps
 		},
-		MinObserved: []string{"frames_checked", "cross_writer_switches", "barrier_openings", "bursts_fully_answered_without_further_traffic", "stops_during_concurrent_writes", "write_timeout_runs", "victim_connections_reset_mid_response"},
+		MinObserved: []string{"frames_checked", "cross_writer_switches", "barrier_openings", "bursts_fully_answered_without_further_traffic", "stops_during_concurrent_writes", "write_timeout_runs", "victim_connections_reset_mid_response", "connections_used_after_a_panic_inside_write"},
 	})
 }
 
@@ -780,11 +780,103 @@ func c05WriteTimeout(c *Ctx, r *Rand, round int) {
 	c.Count("failed_writes", failed)
 }
 
+// c05PanicInWrite: a handler panics INSIDE ResponseWriter.Write (a response whose encoding panics: a nil control); the
+// panic is recovered per request. Whatever Write had begun for that response, the connection's stream must stay sound:
+// every later Write that returns nil puts exactly one whole frame on the wire (bounded: 5s with no further traffic).
+func c05PanicInWrite(c *Ctx, r *Rand, round int) {
+	var mu sync.Mutex
+	ok := map[int64]bool{}
+	panicked := 0
+	srv, err := startSrv(SrvCfg{}, func(m *gldap.Mux) {
+		m.Bind(func(w *gldap.ResponseWriter, req *gldap.Request) {
+			bm, err := req.GetSimpleBindMessage()
+			if err != nil {
+				return
+			}
+			resp := req.NewBindResponse(gldap.WithResponseCode(0))
+			if bm.UserName == "cn=panic-in-write" {
+				mu.Lock()
+				panicked++
+				mu.Unlock()
+				var none gldap.Control
+				resp.SetControls(none)
+			}
+			if w.Write(resp) == nil {
+				mu.Lock()
+				ok[bm.GetID()] = true
+				mu.Unlock()
+			}
+		})
+	})
+	if err != nil {
+		c.Inconclusive("server start: " + err.Error())
+		return
+	}
+	defer srv.StopWithin(patience)
+	cl, err := dialRaw(srv.Addr, nil)
+	if err != nil {
+		c.Inconclusive("dial: " + err.Error())
+		return
+	}
+	defer cl.Close()
+	bind := func(id int64, name string) []byte {
+		return sber.Message(id, sber.BindRequest(3, []byte(name), []byte("p")), nil).Encode()
+	}
+	n := 20 + r.Intn(60)
+	var buf []byte
+	buf = append(buf, bind(1, "cn=fine")...)
+	nPanics := 1 + round%3
+	for k := 0; k < nPanics; k++ {
+		buf = append(buf, bind(int64(2+k), "cn=panic-in-write")...)
+	}
+	if round%2 == 0 {
+		cl.Send(buf)
+		buf = nil
+		time.Sleep(20 * time.Millisecond) // the panics have happened before the burst arrives
+	}
+	for i := 0; i < n; i++ {
+		buf = append(buf, bind(int64(100+i), "cn=fine")...)
+	}
+	cl.Send(buf)
+	seen := map[int64]int{}
+	var streamErr error
+	for len(seen) < n+1 {
+		m, err := cl.ReadMsg(5 * time.Second)
+		if err != nil {
+			streamErr = err
+			break
+		}
+		seen[m.ID]++
+		c.Count("frames_checked", 1)
+	}
+	time.Sleep(5 * time.Millisecond)
+	mu.Lock()
+	defer mu.Unlock()
+	det := map[string]any{"round": round, "writes_that_panicked": panicked, "successful_writes": len(ok), "frames_received": len(seen), "stream_end": fmt.Sprint(streamErr)}
+	for id := range ok {
+		if seen[id] == 0 {
+			c.Violate("frame lost although its Write returned nil", fmt.Sprintf("after %d Write calls on the connection had panicked (recovered): message id %d was reported written but did not arrive within 5s (stream: %v)", panicked, id, streamErr), det)
+			break
+		}
+	}
+	for id, k := range seen {
+		if k > 1 {
+			c.Violate("frame duplicated", fmt.Sprintf("message id %d seen %d times after a Write had panicked", id, k), det)
+		}
+	}
+	if panicked > 0 && srv.Log.PanicCount() > 0 {
+		c.Count("connections_used_after_a_panic_inside_write", 1)
+	}
+}
+
 func c05Run(c *Ctx) {
 	pki := newPKI()
 	r := c.Rng
 	for i := 0; i < c.N(2, 30); i++ {
 		c05WriteTimeout(c, r.Sub(fmt.Sprintf("wt%d", i)), i)
+	}
+	for i := 0; i < c.N(6, 60); i++ {
+		c05PanicInWrite(c, r.Sub(fmt.Sprintf("piw%d", i)), i)
 	}
 	for i := 0; i < c.N(6, 80); i++ {
 		c05StopDuringWrites(c, r.Sub(fmt.Sprintf("stop%d", i)), i)
